@@ -173,7 +173,11 @@ func (ctx Ctx) coqFuncType(e *ast.FuncType) coq.Type {
 func (ctx Ctx) coqType(e ast.Expr) coq.Type {
 	switch e := e.(type) {
 	case *ast.Ident:
-		ctx.dep.addDep(e.Name)
+		// a type parameter is bound by the definition itself; only names
+		// declared elsewhere are dependencies
+		if _, isTypeParam := ctx.typeOf(e).(*types.TypeParam); !isTypeParam {
+			ctx.dep.addDep(e.Name)
+		}
 		// Struct typing is a bit funky.
 		if ctx.isGlobalVar(e) && !ctx.isStruct(e) {
 			return coq.TypeIdent(e.Name)
